@@ -31,7 +31,7 @@ US = ["nameserver_pick.3:4", "transaction_id_pick.2:3", "vpe_strlen.0:26", "vpe_
 def ob(name, entry, desc, fam=0, socktype=1, extra=(), **kw):
     defs = ["C38_FAMILY=%d" % fam, "C38_SOCKTYPE=%d" % socktype] + list(extra)
     d = dict(name=name, harness="C38_gai.c", entry=entry, desc=desc + " [hints: family %s, socktype %s]" % ({0: "UNSPEC", 4: "INET", 6: "INET6"}[fam], "STREAM/TCP" if socktype else "open"),
-             defines=defs, unwind=12, unwindset=list(US),
+             defines=defs, unwind=18, unwindset=list(US),
              cbmc=["--memory-leak-check", "--object-bits", "10", "--max-field-sensitivity-array-size", "136"], timeout=900, mem_gb=4)
     d.update(kw)
     return d
@@ -51,7 +51,10 @@ def merge(fam, n4, n6, first, socktype=1, nocache=0, entry="harness_merge", kf=N
 def obligations(tier):
     full = tier != "quick"
     obs = []
-    obs.append(ob("fastpath", "harness_fastpath", "numeric / NULL-node / EVUTIL_AI_NUMERICHOST lookups: callback at once with the fast path's answer or error, no request, no query"))
+    for mode, nul, what in ((0, 0, "numeric host answered by the fast path"), (0, 1, "NULL node answered by the fast path"), (1, 0, "fast path reports an error (any code)"),
+                            (2, 0, "EVUTIL_AI_NUMERICHOST: system resolver answers")):
+        obs.append(ob("fastpath_m%d_null%d" % (mode, nul), "harness_fastpath", what + ": callback at once, exactly once, with exactly that answer; no request, no query",
+                      extra=["C38_FP_MODE=%d" % mode] + (["C38_NULL_NODE"] if nul else [])))
     for fam in (0, 4, 6):
         obs.append(ob("hosts_f%d" % fam, "harness_hosts", "name with hosts entries (2 IPv4, 1 IPv6, mixed case): answered from them in file order, filtered by family, no query", fam=fam))
     obs.append(ob("hosts_f0_open", "harness_hosts", "the same with open socktype: TCP+UDP pair per entry", fam=0, socktype=0))
